@@ -330,7 +330,7 @@ func genCase(t *rapid.T) Case {
 }
 
 func TestC17(t *testing.T) {
-	ev.Rapid(t, rec, "random", rec.Scale(20000, 600000), genCase, func(c Case) *ev.Failure {
+	ev.Rapid(t, rec, "random", rec.Scale(20000, 3000000), genCase, func(c Case) *ev.Failure {
 		nu, nk, varUnk, first, last, adj := 0, 0, false, false, false, false
 		for i, f := range c.Fields {
 			if f.Unknown {
